@@ -207,9 +207,14 @@ theorem SegOK.ext_all {fs fs' : NMap Bytes} {P P' : Nat} (h : SegOK fs fs' P P')
 
 theorem cutImg_ext {fs fs' fi : NMap Bytes} {P P' : Nat} (hseg : SegOK fs fs' P P')
     (hc : CutImg fs fs' fi) :
-    ∃ M, P ≤ M ∧ (∀ f, f ≤ M → ∃ j, fi.get? f = some (fileOf fs f ++ j)) ∧
+    ∃ M, P ≤ M ∧ M ≤ P' ∧ (∀ f, f ≤ M → ∃ j, fi.get? f = some (fileOf fs f ++ j)) ∧
       (∀ f, M < f → fi.get? f = none) := by
   obtain ⟨nc, h1, h2, h3, h4⟩ := hc
+  have hP' : ∀ f, fs'.get? f ≠ none → f ≤ P' := by
+    intro f hf
+    rcases Nat.lt_or_ge P' f with h | h
+    · exact absurd (hseg.above' f h) hf
+    · exact h
   have hfs' := hseg.ext_all
   have hold : ∀ f, f ≤ P → fs.get? f = some (fileOf fs f ++ []) := by
     intro f hf
@@ -244,17 +249,18 @@ theorem cutImg_ext {fs fs' fi : NMap Bytes} {P P' : Nat} (hseg : SegOK fs fs' P 
     by_cases hnP : nc = P
     · subst hnP
       rcases h3 with h3 | ⟨_, e1, _, e4⟩
-      · refine ⟨nc, Nat.le_refl _, hP, ?_⟩
+      · refine ⟨nc, Nat.le_refl _, hseg.le, hP, ?_⟩
         intro f hf
         by_cases hf1 : f = nc + 1
         · rw [hf1, h3]; exact hseg.above _ (by omega)
         · exact habove f (by omega)
-      · refine ⟨nc + 1, by omega, ?_, habove⟩
+      · rename_i e3
+        refine ⟨nc + 1, by omega, hP' _ e3, ?_, habove⟩
         intro f hf
         by_cases hf1 : f = nc + 1
         · exact ⟨[], by rw [hf1, e4, fileOf_none e1]; rfl⟩
         · exact hP f (by omega)
-    · refine ⟨P, Nat.le_refl _, hP, ?_⟩
+    · refine ⟨P, Nat.le_refl _, hseg.le, hP, ?_⟩
       intro f hf
       by_cases hf1 : f = P + 1
       · rw [hf1]
@@ -282,13 +288,13 @@ theorem cutImg_ext {fs fs' fi : NMap Bytes} {P P' : Nat} (hseg : SegOK fs fs' P 
         · rw [h1 f hlt]; exact hfs' f (by omega)
         · have : f = nc := by omega
           subst this; exact ⟨j, hj⟩
-      rcases h3 with h3 | ⟨_, e1, _, e4⟩
-      · refine ⟨nc, by omega, hlow, ?_⟩
+      rcases h3 with h3 | ⟨_, e1, e3, e4⟩
+      · refine ⟨nc, by omega, hncP', hlow, ?_⟩
         intro f hf
         by_cases hf1 : f = nc + 1
         · rw [hf1, h3]; exact hseg.above _ (by omega)
         · exact hnone_above f (by omega)
-      · refine ⟨nc + 1, by omega, ?_, hnone_above⟩
+      · refine ⟨nc + 1, by omega, hP' _ e3, ?_, hnone_above⟩
         intro f hf
         by_cases hf1 : f = nc + 1
         · exact ⟨[], by rw [hf1, e4, fileOf_none e1]; rfl⟩
@@ -298,7 +304,7 @@ theorem cutImg_ext {fs fs' fi : NMap Bytes} {P P' : Nat} (hseg : SegOK fs fs' P 
         rcases h3 with h3 | ⟨e0, _, _, _⟩
         · rw [h3]; exact hseg.above _ (by omega)
         · exact absurd hj e0
-      refine ⟨min (nc - 1) P', by have := hseg.le; omega, ?_, ?_⟩
+      refine ⟨min (nc - 1) P', by have := hseg.le; omega, by omega, ?_, ?_⟩
       · intro f hf
         rw [h1 f (by omega)]; exact hfs' f (by omega)
       · intro f hf
